@@ -628,7 +628,7 @@ impl<P: Pid> World for Ep<P> {
                             let ok = match a {
                                 Al::No => true,
                                 Al::Reg(_) => self.v5() && m.st == St::Connected,
-                                Al::Use(x) => self.v5() && m.st == St::Connected && m.app_alias.get(&x) == Some(&(t as u8)),
+                                Al::Use(x) => self.v5() && m.st == St::Connected && !c.auto_map && m.app_alias.get(&x) == Some(&(t as u8)),
                             };
                             if ok {
                                 v.push(Act::Pub { q, t: t as u8, al: a, fail: false });
